@@ -383,6 +383,12 @@ impl WriteHalf {
             return Err(io::Error::new(io::ErrorKind::BrokenPipe, "Broken pipe"));
         }
 
+        // The connection has been reset (the socket is gone): fail now
+        // instead of waiting for credits nobody will release.
+        if !self.is_connected() {
+            return Err(io::Error::new(io::ErrorKind::BrokenPipe, "Broken pipe"));
+        }
+
         if !self.flow_control.try_acquire() {
             return Err(io::Error::new(
                 io::ErrorKind::WouldBlock,
@@ -406,11 +412,17 @@ impl WriteHalf {
                 "Broken pipe",
             )));
         }
-        if self.flow_control.has_credits() {
+        if self.flow_control.has_credits() || !self.is_connected() {
             return Poll::Ready(Ok(()));
         }
         self.flow_control.register_waker(cx.waker().clone());
         Poll::Pending
+    }
+
+    /// Whether the host still has the stream's socket. A RST from the peer
+    /// removes it.
+    fn is_connected(&self) -> bool {
+        World::current(|world| world.current_host_mut().tcp.has_stream(*self.pair))
     }
 
     fn poll_write_priv(&self, cx: &mut Context<'_>, buf: &[u8]) -> Poll<Result<usize>> {
@@ -520,6 +532,12 @@ impl BidiFlowControl {
         }
     }
 
+    /// The stream was reset: a local writer parked on flow control must be
+    /// polled again to find out.
+    pub(crate) fn wake_writer(&self) {
+        self.write.wake();
+    }
+
     pub(crate) fn invert(self) -> Self {
         Self {
             write: self.read,
@@ -554,6 +572,13 @@ impl FlowControl {
 
     fn release(&self) {
         self.credits.fetch_add(1, Ordering::Release);
+        if let Some(waker) = self.waker.lock().unwrap().take() {
+            waker.wake();
+        }
+    }
+
+    /// Wake a writer parked on this direction without granting a credit.
+    fn wake(&self) {
         if let Some(waker) = self.waker.lock().unwrap().take() {
             waker.wake();
         }
